@@ -110,7 +110,9 @@ func (e *Engine) pos(in ssa.Instruction) string {
 		}
 	}
 	f := p.Filename
-	if i := strings.Index(f, "/repo/"); i >= 0 {
+	if e.RepoRoot != "" && strings.HasPrefix(f, e.RepoRoot+"/") {
+		f = f[len(e.RepoRoot)+1:]
+	} else if i := strings.Index(f, "/repo/"); i >= 0 {
 		f = f[i+6:]
 	}
 	return fmt.Sprintf("%s:%d", f, p.Line)
